@@ -497,6 +497,17 @@ def hunt4_rules(chk, repo):
                 chk.violation("C04.compress.order", a, K.short(a, 60), "no await between the end of `async with self._compress_lock` and self._write(...)",
                               f"StreamWriter.{mname}() suspends between compressing a block and writing it: another writer's block can overtake it")
     chk.expect_count("C04.compress.order", nc, 2, "awaits of the stream compressor in StreamWriter")
+    # ---- C04.length.shortserver: a response that ends short of its declared Content-Length is the last one on its connection (known, F272) --------------
+    # (client sibling: C06.shortbody.)  The repair - force_close() when the writer still has declared bytes left at write_eof() - makes the baseline
+    # test tests/test_client_functional.py::test_timeout_on_reading_data fail, which relies on the connection staying open; recorded as a known finding.
+    we = repo.func(WRESP, "StreamResponse.write_eof")
+    closes = [c for c in prog.calls_in(we.node) if norm.raw(c.func) in ("self.force_close", "self._req.protocol.force_close")] + \
+             [a for a in ast.walk(we.node) if isinstance(a, ast.Assign) and norm.raw(a.targets[0]) == "self._keep_alive" and norm.raw(a.value) == "False"]
+    if any(any("length" in l.text for c_ in PC.pc(K.stmt_of(x) if isinstance(x, ast.Call) else x, raw=True) for l in c_) for x in closes):
+        chk.ok("C04.length.shortserver", we, "write_eof(): declared bytes still outstanding close the connection after this response")
+    else:
+        chk.violation("C04.length.shortserver", we, "await self._payload_writer.write_eof(data)", "if self._payload_writer.length: self.force_close()",
+                      "a handler that sets content_length = 100 and writes 24 bytes leaves the response unfinished on a connection that stays alive: the head of the next pipelined response lands inside the 100 declared bytes of this one; a client reading it blocks until its own timeout")
     # ---- C04.te.client10: the client never frames an HTTP/1.0 request with chunked (sibling of the server's refusal) ------------------------------------------
     ute = repo.func(REQ, "ClientRequest._update_transfer_encoding")
     refs = [r for r, _c in K.raises_in(ute) if PC.has_lit(PC.pc(r), "self.chunked", True) is not None and any("HttpVersion1" in l.text and "self.version" in l.text for l in PC.units(PC.pc(r)))]
